@@ -154,6 +154,11 @@ def observe(model, probes, seed=1234, samples=True):
         obs['pdf'] = _try(model.pdf, frame)
         # the CDF is not observed here: scipy's MVN integrator is randomised for d >= 3 (C13 checks it with a tolerance)
         obs['correlation'] = _try(lambda: model.correlation)
+        if samples and cols is not None and len(cols) == rows.shape[1] and len(cols) >= 2:
+            def cond_sample():
+                model.set_random_state(seed)
+                return model.sample(3, conditions={cols[-1]: float(rows[0, -1])})
+            obs['conditional_sample'] = _try(cond_sample)
     elif k == 'vine':
         u = np.asarray(probes['u'], dtype=float)[None, :]
         obs['likelihood'] = _try(model.get_likelihood, u.copy())
